@@ -120,6 +120,23 @@ func main() {
 		absdump(repo, pos[0], r, pos[2])
 	case "selfcheck":
 		os.Exit(selfcheck(verif))
+	case "renameall":
+		// renameall --repo <scratch copy> [suffix] : rename every unexported identifier (checker robustness test)
+		suffix := "Zq"
+		if len(pos) > 0 {
+			suffix = pos[0]
+		}
+		os.Exit(renameAll(repo, suffix, false))
+	case "roles":
+		// prints how every logical (role) name resolves on the tree
+		p, err := Load(repo, "linux", nil)
+		if err != nil {
+			fmt.Println(err)
+			os.Exit(2)
+		}
+		os.Exit(dumpRoles(p))
+	case "privnames":
+		os.Exit(renameAll(repo, "", true))
 	case "explain":
 		if len(pos) != 1 {
 			usage()
